@@ -87,6 +87,11 @@ t("sigpy/mri/app.py", [459], "P", "JsenseRecon (no listed property beyond the pr
 t("sigpy/mri/linop.py", [72], "E", "communicator branch (not reachable without MPI)")
 
 
+t("sigpy/linop.py", [1222, 1080], "S", "default shift of the Downsample / Upsample operators; advertised shape of Interpolate (the violation was tagged for a property whose check did not run the engine: registry corrected)")
+t("sigpy/linop.py", [1545], "P", "Gradient (deprecated alias of FiniteDifference)")
+t("sigpy/linop.py", [1938], "S", "reported by C02 (complex linearity of the dense probe), which this stream did not run")
+
+
 def main():
     recs = []
     for f in sorted(glob.glob(os.path.join(HERE, "*.jsonl"))):
